@@ -125,6 +125,12 @@ class Action(BaseForm):
 
     def __init__(self, left, right):
         """Initialise."""
+        # __new__ may have returned an already initialised Action (its left or
+        # right argument, when the other one is an Argument / Coargument): Python
+        # still calls __init__ on it, and initialising it again would make the
+        # Action its own operand.
+        if hasattr(self, "ufl_operands"):
+            return
         BaseForm.__init__(self)
 
         self._left = left
